@@ -20,6 +20,12 @@ Case kinds
             of the original stacks, the inputs must be bit-identical after every call, and a valid
             read-only input must not raise.  Model: `Rsa.Compare.sessionRun` (heap model of a call,
             aliasing / in-place flags regenerated from the source text).
+  value scales (round 5): a `compare`, `session` or `riem` case may carry `scale = {'x': [e..], 'y': [e..]}`,
+            one exponent per RDM: the RDM handed to the library (and, exactly, to the model) is the listed
+            one times 2**e, e in -90..+60 (both stacks, one stack only, single RDMs of a stack, mixed).
+            `_eff(case)` materialises the exact values; measures are judged by the definition evaluated on
+            max-normalised vectors (oracle) and by their scale laws (every similarity is invariant under
+            positive scaling of either argument, the squared Bures metric is homogeneous of degree 1).
 """
 import importlib
 import itertools
@@ -63,6 +69,9 @@ THEOREMS = [P + n for n in (
     # round 4: reuse sessions
     'session_call_pure', 'session_results_eq_definition', 'coded_call_safe', 'compare_session_pure',
     'session_corr_is_corr', 'session_alias_inplace_witness',
+    # round 5: positive scaling
+    'cosine_guard_scale_free', 'cosine_scale', 'corr_scale', 'cosine_coded_scale', 'spearman_scale',
+    'rhoA_scale', 'tau_scale', 'whitened_scale', 'whitened_fast_scale',
 )]
 RULE = ('cases come from one PRNG: kind compare (n = 3..7 conditions, stacks of 1..4 RDMs, '
         'small integer / quarter-valued dissimilarities with many ties, negatives, occasional '
@@ -72,7 +81,9 @@ RULE = ('cases come from one PRNG: kind compare (n = 3..7 conditions, stacks of 
         'measures), kind getv (V against the definition, exact) and kind ranks (rankdata, '
         'exact), kind session (the same two float64 objects - ndarray, RDMs, read-only, strided view, '
         'mixed, one object twice - through 2-4 successive compare() calls, shift-invariant measures '
-        'first, then non-invariant ones; inputs bit-identical after every call). A case is non-trivial when at least one compared RDM is non-constant; '
+        'first, then non-invariant ones; inputs bit-identical after every call); about 40 % of the compare / session / '
+        'riem cases carry value scales: RDMs multiplied by exact powers of two 2^-90 .. 2^+60 (both stacks, one stack, '
+        'single RDMs of a stack, mixed), the model is fed the exact values. A case is non-trivial when at least one compared RDM is non-constant; '
         'distinct = distinct (kind, method, n, stacks, sigma_k, input form, permutation).')
 METHODS = ['cosine', 'corr', 'spearman', 'kendall', 'tau-b', 'tau-a', 'rho-a',
            'corr_cov', 'cosine_cov', 'bures', 'bures_metric']
@@ -92,7 +103,11 @@ BRANCHES = (['method:' + m for m in METHODS] +
              'kind:session', 'session:ndarray', 'session:rdms', 'session:mixed', 'session:readonly',
              'session:view', 'session:rdms_readonly', 'session:same_object', 'session:centre_then_noninv',
              'session:rank_then_noninv', 'session:bures_after', 'session:cov_after', 'session:len>=3',
-             'session:stack>1', 'session:sigma_refilled', 'single_call_inputs_intact'])
+             'session:stack>1', 'session:sigma_refilled', 'single_call_inputs_intact',
+             # round 5: value scales
+             'scale:tiny', 'scale:huge', 'scale:one-sided', 'scale:both', 'scale:within_stack',
+             'scale:self_pair', 'scale:law_checked', 'session:scaled', 'session:scale_tiny', 'riem:scaled'] +
+            ['scale:tiny:' + m for m in METHODS])
 ASSUMPTIONS = [
     'IEEE evaluation of either side is within the stated tolerance of the real value '
     '(inputs are small integers / quarters, n <= 7, well-conditioned sigma_k)',
@@ -226,6 +241,88 @@ def case_dtypes(case):
     return tuple(case.get('dtypes', ('float64', 'float64')))
 
 
+
+# ------------------------------------------------------------------ value scales (round 5)
+
+TINY = [-90, -80, -70, -60, -50]          # norm of an O(1..100) RDM far below any absolute epsilon
+HUGE = [40, 50, 60]
+MID = [-35, -20, -8, 12, 25]
+
+
+def _pow2(v, e):
+    """v * 2**e, exactly"""
+    return rat(F(unrat(v)) * F(2) ** e)
+
+
+def _eff(case):
+    """the case with the exact values that are handed to the library and to the model: RDM k of stack s is
+    the listed vector times 2**scale[s][k].  Idempotent; the listed (unscaled) stacks stay in `base`."""
+    sc = case.get('scale')
+    if not sc:
+        return case
+    x = [[_pow2(v, e) for v in r] for r, e in zip(case['x'], sc['x'])]
+    y = x if case.get('same') else [[_pow2(v, e) for v in r] for r, e in zip(case['y'], sc['y'])]
+    return dict(case, x=x, y=y, scale=None, scale_of={'x': list(sc['x']), 'y': list(sc['x'] if case.get('same') else sc['y'])},
+                base={'x': case['x'], 'y': case['x'] if case.get('same') else case['y']})
+
+
+def _scale(rng, nx, ny, mode=None, cls=None):
+    """exponents for every RDM of the two stacks.  mode: both | one | single | mixed; cls: tiny | huge | mid"""
+    mode = mode or rng.choice(['both', 'both', 'one', 'one', 'single', 'mixed'])
+    cls = cls or rng.choice(['tiny', 'tiny', 'tiny', 'huge', 'mid'])
+    pal = {'tiny': TINY, 'huge': HUGE, 'mid': MID}[cls]
+    e = rng.choice(pal)
+    if mode == 'both':
+        sx, sy = [e] * nx, [e] * ny
+    elif mode == 'one':
+        sx, sy = ([e] * nx, [0] * ny) if rng.random() < 0.5 else ([0] * nx, [e] * ny)
+    elif mode == 'single':
+        sx, sy = [0] * nx, [0] * ny
+        if rng.random() < 0.5:
+            sx[rng.randrange(nx)] = e
+        else:
+            sy[rng.randrange(ny)] = e
+    else:
+        pool = pal + pal + [0] + rng.choice([TINY, HUGE, MID])
+        sx, sy = [rng.choice(pool) for _ in range(nx)], [rng.choice(pool) for _ in range(ny)]
+        sx[rng.randrange(nx)] = e
+    if all(v == 0 for v in sx + sy):
+        sx[0] = e
+    return {'x': sx, 'y': sy}
+
+
+SCALE_PLAN = [('both', 'tiny'), ('one', 'tiny'), ('single', 'tiny'), ('both', 'huge'), ('mixed', 'tiny'),
+              ('one', 'huge'), ('mixed', None), ('single', 'huge'), ('both', 'mid'), ('one', 'tiny')]
+
+
+def scale_tags(sc):
+    """coverage tags of a scale record (exponents per RDM)"""
+    if not sc:
+        return []
+    ex, ey = sc['x'], sc['y']
+    br = []
+    if min(ex + ey) <= -50:
+        br.append('scale:tiny')
+    if max(ex + ey) >= 40:
+        br.append('scale:huge')
+    ux, uy = len(set(ex)) == 1, len(set(ey)) == 1
+    if ux and uy and ((ex[0] == 0) != (ey[0] == 0)):
+        br.append('scale:one-sided')
+    if ux and uy and ex[0] == ey[0] != 0:
+        br.append('scale:both')
+    if not ux or not uy:
+        br.append('scale:within_stack')
+    return br
+
+
+def _unit(case, i, j):
+    """2**(larger exponent of the pair): the factor by which the absolute tolerance of the (degree-1
+    homogeneous) squared Bures metric is transported; 1.0 for a case without scales"""
+    sc = case.get('scale_of') or case.get('scale')
+    if not sc:
+        return 1.0
+    return float(F(2) ** max(sc['x'][i], sc['y'][j]))
+
 # ------------------------------------------------------------------ generation
 
 def _q(rng, lo, hi, den=1):
@@ -288,7 +385,7 @@ def _sigma(rng, n, kind):
     return {'mat': m}
 
 
-def _compare_case(rng, method, nmax):
+def _compare_case(rng, method, nmax, k=None):
     n = rng.randint(3, nmax)
     m = n * (n - 1) // 2
     nx, ny = rng.choice([1, 1, 2, 3, 4]), rng.choice([1, 2, 2, 3, 4])
@@ -331,9 +428,17 @@ def _compare_case(rng, method, nmax):
     if dtype_ok(x, 'int64') and dtype_ok(y, 'int64') and rng.random() < 0.25:
         dtypes = [rng.choice(['int64', 'int32']), rng.choice(['int64', 'int32'])]
     layout = rng.choice(['C', 'C', 'F', 'strided'])
-    return {'kind': 'compare', 'method': method, 'n': n, 'x': x, 'y': y, 'sigma': sigma,
+    case = {'kind': 'compare', 'method': method, 'n': n, 'x': x, 'y': y, 'sigma': sigma,
             'form': form, 'dtypes': dtypes, 'layout': layout,
             'perm': None if perm == list(range(n)) else perm}
+    # value scales: 2 of every 5 cases of a method (stratified over the plan when k is given)
+    if (k % 5 in (1, 3)) if k is not None else (rng.random() < 0.4):
+        mode, cls = SCALE_PLAN[(k // 5 * 2 + (k % 5 == 3)) % len(SCALE_PLAN)] if k is not None else (None, None)
+        case['scale'] = _scale(rng, nx, ny, mode, cls)
+        eff = _eff(case)
+        case['dtypes'] = [d if d.startswith('float') and dtype_ok(st, d) else 'float64'
+                          for d, st in zip(dtypes, (eff['x'], eff['y']))]
+    return case
 
 
 def _reject_case(rng):
@@ -369,14 +474,17 @@ def _passes_case(rng, tier):
     return {'kind': 'passes', 'x': x, 'y': y}
 
 
-def _riem_case(rng, tier, full):
+def _riem_case(rng, tier, full, k=None):
     n = rng.randint(3, 5 if full else 7)
     gen = _euclid_full if full else _euclid
     x = [gen(rng, n) for _ in range(rng.choice([1, 2]))]
     y = [gen(rng, n) for _ in range(rng.choice([1, 2]))]
     sigma = _sigma(rng, n, rng.choice(['none', 'mat']))
-    return {'kind': 'riem', 'n': n, 'x': x, 'y': y, 'sigma': sigma, 'full': full,
+    case = {'kind': 'riem', 'n': n, 'x': x, 'y': y, 'sigma': sigma, 'full': full,
             'form': rng.choice(['array', 'rdms'])}
+    if k is not None and k % 2 == 1:
+        case['scale'] = _scale(rng, len(x), len(y))
+    return case
 
 SHIFT_INV = ['corr', 'corr_cov', 'corr', 'corr_cov', 'spearman', 'rho-a', 'kendall', 'tau-a']
 NON_INV = ['cosine', 'cosine_cov', 'bures', 'bures_metric', 'cosine', 'cosine_cov']
@@ -416,16 +524,24 @@ def _session_case(rng, nmax=6, k=None):
         y = [_vector(rng, m, rng.choice(styles)) for _ in range(ny)]
     same = rng.random() < 0.15 if k is None else (k % 7 == 3)
     cont = rng.choice(CONTAINERS) if k is None else CONTAINERS[k % len(CONTAINERS)]
-    return {'kind': 'session', 'n': n, 'x': x, 'y': x if same else y, 'same': same,
+    case = {'kind': 'session', 'n': n, 'x': x, 'y': x if same else y, 'same': same,
             'container': cont, 'steps': steps}
+    # value scales: every second block of six (so every container is reached scaled and unscaled)
+    if ((k // 6) % 2 == 1) if k is not None else (rng.random() < 0.4):
+        mode, cls = SCALE_PLAN[(k // 12) % len(SCALE_PLAN)] if k is not None else (None, None)
+        sc = _scale(rng, len(x), len(y), mode, cls)
+        if same:
+            sc['y'] = sc['x']
+        case['scale'] = sc
+    return case
 
 
 def generate(rng, tier):
     per_method = 36 if tier == 'quick' else 900
     nmax = 6 if tier == 'quick' else 7
-    for _ in range(per_method):
+    for k in range(per_method):
         for method in METHODS:
-            yield _compare_case(rng, method, nmax)
+            yield _compare_case(rng, method, nmax, k)
     for _ in range(24 if tier == 'quick' else 300):
         yield _reject_case(rng)
     for _ in range(20 if tier == 'quick' else 400):
@@ -437,7 +553,7 @@ def generate(rng, tier):
     for _ in range(60 if tier == 'quick' else 1500):
         yield _passes_case(rng, tier)
     for k in range(14 if tier == 'quick' else 200):
-        yield _riem_case(rng, tier, full=(k % 7 == 0))
+        yield _riem_case(rng, tier, full=(k % 7 == 0), k=k)
     for k in range(72 if tier == 'quick' else 1500):
         yield _session_case(rng, nmax, k)
     if tier == 'thorough':
@@ -536,7 +652,7 @@ LIB_EXC = (ValueError, TypeError, AssertionError, IndexError, ZeroDivisionError,
 def run_impl(case):
     """exceptions of the library (also of its private helpers called directly) become {'exc': name}"""
     try:
-        return _run_impl(case)
+        return _run_impl(_eff(case))
     except LIB_EXC as exc:
         return {'exc': type(exc).__name__}
 
@@ -666,6 +782,7 @@ SPEC_TWIN = ('cosine', 'corr', 'spearman', 'tau-a', 'rho-a', 'corr_cov', 'cosine
 
 
 def model_requests(case):
+    case = _eff(case)
     if case['kind'] == 'session':
         enc = lambda v: fbits(_fl(v))   # noqa: E731
         return [{'op': 'c03.session', 'n': case['n'], 'same': bool(case.get('same')),
@@ -697,6 +814,10 @@ def model_requests(case):
         # the same measure through the definitions the theorems speak about (`*_coded_eq`,
         # `tauA_twoPass_eq_spec`, `whitened_fast_eq_V`): coded path and definition must agree
         reqs.append(_req(method + '_spec', n, case['x'], case['y'], case['sigma']))
+    if case.get('base'):
+        # the model on the listed (unscaled) stacks: the scale laws (`*_scale` theorems) say what the
+        # scaled result must be
+        reqs.append(_req(method, n, case['base']['x'], case['base']['y'], case['sigma']))
     return reqs
 
 
@@ -730,6 +851,9 @@ def model_result(case, answers):
         k += 1
     if case['method'] in SPEC_TWIN:
         out['spec'] = _decode(case, answers[k])
+        k += 1
+    if case.get('scale'):
+        out['unscaled'] = _decode(case, answers[k])
     return out
 
 
@@ -747,8 +871,9 @@ def tolerance(case):
     return 1e-9, 1e-11
 
 
-def _diff_matrix(a, b, rtol, atol, undefined_ok):
-    """a = implementation, b = model; None = NaN / undefined"""
+def _diff_matrix(a, b, rtol, atol, undefined_ok, unit=None):
+    """a = implementation, b = model; None = NaN / undefined; unit(i, j) multiplies the absolute tolerance
+    (squared Bures metric of scaled RDMs: the tolerance is transported by the scale law)"""
     if isinstance(a, dict) or isinstance(b, dict):
         return None if a == b else f'{a} != {b}'
     if len(a) != len(b) or any(len(r) != len(s) for r, s in zip(a, b)):
@@ -764,12 +889,13 @@ def _diff_matrix(a, b, rtol, atol, undefined_ok):
                 return f'[{i}][{j}]: impl {u!r}, model undefined'
             if u is None:
                 return f'[{i}][{j}]: impl nan, model {v!r}'
-            if not close(u, v, rtol, atol):
+            if not close(u, v, rtol, atol * (unit(i, j) if unit else 1.0)):
                 return f'[{i}][{j}]: impl {u!r} != model {v!r}'
     return None
 
 
 def compare(case, impl, model):
+    case = _eff(case)
     if isinstance(model, dict) and 'model_error' in model:
         return f'model error {model}'
     if case['kind'] in ('getv', 'ranks', 'passes', 'riem', 'session') and isinstance(impl, dict) and set(impl) == {'exc'}:
@@ -789,7 +915,8 @@ def compare(case, impl, model):
                 return f"session call {k} ({st['method']}, {case['container']}): the library raised {r['result']}"
             rtol, atol = tolerance({'method': st['method'], 'sigma': st['sigma']})
             d = _diff_matrix(r['result'], model['spec'][k], rtol, atol,
-                             st['method'] in ('corr_cov', 'cosine_cov'))
+                             st['method'] in ('corr_cov', 'cosine_cov'),
+                             (lambda i, j: _unit(case, i, j)) if st['method'] == 'bures_metric' else None)
             if d:
                 return f"session call {k} ({st['method']} after {[t['method'] for t in case['steps'][:k]]}) {d}"
             if not r['intact']:
@@ -852,19 +979,37 @@ def compare(case, impl, model):
         return None if a == b else f'rankdata {impl} != tie-averaged ranks {model}'
     rtol, atol = tolerance(case)
     und = case['method'] in ('corr_cov', 'cosine_cov')
+    unit = (lambda i, j: _unit(case, i, j)) if case['method'] == 'bures_metric' else None
     for key, mkey in (('array', 'base'), ('rdms', 'base'), ('mixed', 'base'), ('array1d', 'base'),
                       ('rdms_sq', 'base'), ('second_way', 'base'), ('perm', 'perm')):
         if key in impl:
-            d = _diff_matrix(impl[key], model[mkey], rtol, atol, und)
+            d = _diff_matrix(impl[key], model[mkey], rtol, atol, und, unit)
             if d:
                 return f'{case["method"]} ({key}) {d}'
+    if 'unscaled' in model:
+        # scale laws inside the model (theorems `*_scale`): every similarity is unchanged when either RDM is
+        # multiplied by a positive number; the squared Bures metric is homogeneous of degree 1
+        sc = case['scale_of']
+        es = set(sc['x'] + sc['y'])
+        if case['method'] != 'bures_metric':
+            tight = case['method'] in EXACT
+            d = _diff_matrix(model['base'], model['unscaled'], 0.0 if tight else max(rtol, 1e-9),
+                             0.0 if tight else max(atol, 1e-11), True)
+            if d:
+                return f'model: {case["method"]} is not invariant under the scaling {sc}: {d}'
+        elif len(es) == 1:
+            f = float(F(2) ** es.pop())
+            d = _diff_matrix(model['base'], [[None if v is None else v * f for v in r] for r in model['unscaled']],
+                             rtol, atol, True, unit)
+            if d:
+                return f'model: bures_metric does not scale with the RDMs ({sc}): {d}'
     if 'perm' in model:
-        d = _diff_matrix(model['perm'], model['base'], max(rtol, 1e-7), max(atol, 1e-7), True)
+        d = _diff_matrix(model['perm'], model['base'], max(rtol, 1e-7), max(atol, 1e-7), True, unit)
         if d:
             return f'model not permutation invariant: {d}'
     if 'spec' in model:
         tight = case['method'] in EXACT
-        d = _diff_matrix(model['base'], model['spec'], 0.0 if tight else 1e-8, 0.0 if tight else 1e-10, True)
+        d = _diff_matrix(model['base'], model['spec'], 0.0 if tight else 1e-8, 0.0 if tight else 1e-10, True, unit)
         if d:
             return f'model: the coded path differs from the definition it is proved equal to: {d}'
     return None
@@ -934,14 +1079,22 @@ def features(case, impl):
             br.append('session:len>=3')
         if len(case['x']) > 1 and len(case['y']) > 1:
             br.append('session:stack>1')
+        if case.get('scale'):
+            br += ['session:scaled'] + scale_tags(case['scale'])
+            if 'scale:tiny' in br:
+                br.append('session:scale_tiny')
         return {'kind': 'session', 'n': case['n'], 'container': case['container'], 'n_calls': len(names),
+                'scaled': bool(case.get('scale')),
                 'same_object': bool(case.get('same')), 'first_method': names[0], 'last_method': names[-1],
                 'branches': sorted(set(br))}
     if case['kind'] == 'riem':
         br = ['kind:riem', 'riem:sigma_' + ('none' if case['sigma'] is None else 'mat')]
         if case['full']:
             br.append('riem:full_run')
-        return {'kind': 'riem', 'n': case['n'], 'full': case['full'], 'branches': br}
+        if case.get('scale'):
+            br += ['riem:scaled'] + scale_tags(case['scale'])
+        return {'kind': 'riem', 'n': case['n'], 'full': case['full'], 'scaled': bool(case.get('scale')),
+                'branches': br}
     if case['kind'] != 'compare':
         br = ['kind:' + case['kind']]
         if case['kind'] == 'getv' and (case['sigma'] is None or 'mat' in case['sigma']):
@@ -982,7 +1135,16 @@ def features(case, impl):
         br.append('stack>1')
     if any(list(map(unrat, a)) == list(map(unrat, b)) for a in case['x'] for b in case['y']):
         br.append('self_pair')
+    if case.get('scale'):
+        tags = scale_tags(case['scale'])
+        br += tags + ['scale:law_checked']
+        if 'scale:tiny' in tags:
+            br.append('scale:tiny:' + case['method'])
+        if 'self_pair' in br:
+            br.append('scale:self_pair')
     return {'kind': 'compare', 'method': case['method'], 'n': case['n'], 'sigma': sk,
+            'scaled': bool(case.get('scale')), 'min_exp': min(case['scale']['x'] + case['scale']['y']) if case.get('scale') else 0,
+            'max_exp': max(case['scale']['x'] + case['scale']['y']) if case.get('scale') else 0,
             'form': case['form'], 'permuted': case['perm'] is not None,
             'constant_rdm': any(_is_const(v) for v in vs),
             'dtype_x': dt[0], 'dtype_y': dt[1], 'dtype_pair': pair, 'layout': case.get('layout', 'C'),
@@ -998,7 +1160,29 @@ def nontrivial_key(case, impl):
 
 # ------------------------------------------------------------------ oracle, shrink
 
+_PRIME = [np.array([[1.0, 4.0, 9.0], [4.0, 1.0, 1.0]]) * 2.0 ** e for e in (60, -90)]
+
+
+def _prime():
+    """fixed call history before a case is judged: one stack of huge and one of tiny RDMs through the
+    measures that share helpers.  A defect that keeps state between calls (a threshold remembered from
+    earlier data, a cache keyed by magnitude) then fails the same way in the run and in a fresh --replay
+    process, so the replay of a stateful defect is self-contained."""
+    import warnings
+    with np.errstate(all='ignore'), warnings.catch_warnings():
+        warnings.simplefilter('ignore')
+        for a in _PRIME:
+            for m in ('cosine', 'corr', 'cosine_cov', 'bures'):
+                try:
+                    _cmp.compare(a.copy(), a.copy(), method=m)
+                except LIB_EXC:
+                    pass
+
+
 def oracle(case):
+    case = _eff(case)
+    if case['kind'] in ('compare', 'session'):
+        _prime()
     if case['kind'] in ('getv', 'ranks'):
         r = run_impl(case)
         if isinstance(r, dict) and set(r) == {'exc'}:
@@ -1060,16 +1244,38 @@ def _shrink_session(case, still_fails0):
                     best, done = c, True
     if not best.get('same') and (len(best['x']) > 1 or len(best['y']) > 1):
         done = False
-        for xi in best['x']:
-            for yi in best['y']:
+        for i, xi in enumerate(best['x']):
+            for j, yi in enumerate(best['y']):
                 c = dict(best, x=[xi], y=[yi])
+                if best.get('scale'):
+                    c['scale'] = {'x': [best['scale']['x'][i]], 'y': [best['scale']['y'][j]]}
                 if not done and still_fails(c):
                     best, done = c, True
+    best = _shrink_scale(best, still_fails)
     for key, val in (('container', 'ndarray'), ('same', False)):
         if best.get(key) != val:
             c = dict(best, **{key: val})
             if still_fails(c):
                 best = c
+    return best
+
+
+def _shrink_scale(best, still_fails):
+    """no scale at all, else one common exponent, else one exponent on one side"""
+    sc = best.get('scale')
+    if not sc:
+        return best
+    c = {k: v for k, v in best.items() if k != 'scale'}
+    if still_fails(c):
+        return c
+    nx, ny = len(sc['x']), len(sc['y'])
+    e = max(sc['x'] + sc['y'], key=abs)
+    cands = [{'x': [e] * nx, 'y': [e] * ny}]
+    if not best.get('same'):
+        cands += [{'x': [e] * nx, 'y': [0] * ny}, {'x': [0] * nx, 'y': [e] * ny}]
+    for cand in cands:
+        if cand != sc and still_fails(dict(best, scale=cand)):
+            return dict(best, scale=cand)
     return best
 
 
@@ -1081,15 +1287,18 @@ def shrink(case, still_fails):
     best = case
     # one RDM per stack
     if len(best['x']) > 1 or len(best['y']) > 1:
-        for xi in best['x']:
+        for i, xi in enumerate(best['x']):
             done = False
-            for yi in best['y']:
+            for j, yi in enumerate(best['y']):
                 c = dict(best, x=[xi], y=[yi])
+                if best.get('scale'):
+                    c['scale'] = {'x': [best['scale']['x'][i]], 'y': [best['scale']['y'][j]]}
                 if still_fails(c):
                     best, done = c, True
                     break
             if done:
                 break
+    best = _shrink_scale(best, still_fails)
     for key, val in (('perm', None), ('form', 'array'), ('layout', 'C'),
                      ('dtypes', ['float64', 'float64'])):
         if best.get(key) != val:
